@@ -197,11 +197,17 @@ def check_signal(sig, rng, full, model=None, want_traces=False):
             if not ok:
                 viol.append(('C03 relation broken (%s): %s' % (op['op'], what), {'detector': kind, 'signal': sig, 'transformation': op}, b, t))
             elif op['op'] in ('ins', 'nan', 'series'):
-                # the same transformed input fed in chunks (borders never directly before/after a NaN: a NaN at a chunk end is an "end" of that call)
+                # the same transformed input fed in chunks: first with borders away from the NaNs ...
                 m = len(inp)
                 isn = [bool(x != x) for x in np.asarray(inp, dtype=np.float64)]
                 borders = [k for k in range(1, m) if not isn[k - 1] and not isn[k]]
                 picks = [[k] for k in borders] if (full and op['op'] == 'nan') else ([sorted(rng.sample(borders, min(len(borders), rng.randint(1, 3))))] if borders else [])
+                if op['op'] == 'nan':
+                    # ... and borders next to the NaNs: every NaN block delivered as a chunk of its own (a drop-out block of a streaming source),
+                    # and each single border directly before / after a NaN
+                    edges = [k for k in range(1, m) if isn[k - 1] != isn[k]]
+                    if edges:
+                        picks = picks + [edges] + ([[k] for k in edges] if full else [[rng.choice(edges)]])
                 for pk in picks:
                     cuts = [b2 - a2 for a2, b2 in zip([0] + pk, pk + [m])]
                     tc = obs(kind, inp, cuts)
@@ -342,7 +348,7 @@ def run(chk):
                        'runs the real detectors on the signal and on each transformed signal (negation, 2 affine maps, every admissible non-reversal insertion, '
                        'every placement of 1-2 interior NaNs, 6 Series index kinds) and checks the stated relation between the two observed outputs. '
                        'Non-trivial = signal with >= 1 closed cycle. Recorded pairs on longer random signals are decided by Trace_Symmetry.tla.')
-    chk.cov['rule'] += ' Also: clusters of three and four NaNs; negation of every strictly alternating signal over -2..2 with up to 8 (10) samples on all detectors.'
+    chk.cov['rule'] += ' Also: clusters of three and four NaNs; NaN blocks delivered as chunks of their own and single chunk borders directly before / after a NaN; negation of every strictly alternating signal over -2..2 with up to 8 (10) samples on all detectors.'
     chk.cov['exhaustive'] = True
     chk.assumptions += ['integer samples and integer affine maps in the TLC-validated part; dyadic scalings are exact in float64',
                         'FKM detector is only claimed to be invariant under negation and refinement (its rule uses absolute values)']
